@@ -40,6 +40,8 @@ type c12Scenario struct {
 	// Directed: one directed schedule with the REAL capacity (validation of what the small-capacity search
 	// finds): client1 stops before its wake-up send, everybody else runs by priority, client1 goes last.
 	Directed bool
+	// DDL: the clients create different tables and use them (c12ddl.go)
+	DDL bool
 }
 
 func c12Seed() []*Stmt {
@@ -62,6 +64,7 @@ func c12Scenarios(thorough bool) []*c12Scenario {
 		{Name: "update[1,3]||update[2,4]", Clients: [][]*Stmt{{up("u1", 1, 3)}, {up("u2", 2, 4)}}},
 		{Name: "update;read||update", Clients: [][]*Stmt{{up("u1", 1, 2), rd(1, 4)}, {up("u2", 2, 3)}}},
 		// a statement that fails (unknown table) next to good ones: each caller gets the answer to ITS statement
+		{Name: "ddl/create(ta);insert;read||create(tb);insert;read", DDL: true},
 		{Name: "unknown-table||update||read", Clients: [][]*Stmt{{{Kind: "select", Table: "nosuch", Cols: []string{"k"}, Where: Leaf{"k", "=", k(1)}}}, {up("u1", 1, 2)}, {rd(1, 2)}}},
 	}
 	// request-channel flood: capacity+2 clients with one cheap read each
@@ -83,6 +86,7 @@ func c12Scenarios(thorough bool) []*c12Scenario {
 	if thorough {
 		out = append(out,
 			&c12Scenario{Name: "flood/capacity1/3clients", Clients: flood(3), Cap: 1, Free: 3, Bound: 1},
+			&c12Scenario{Name: "ddl/3clients/create;insert;read", DDL: true},
 			&c12Scenario{Name: "update||update||read", Clients: [][]*Stmt{{up("u1", 1, 3)}, {up("u2", 2, 4)}, {rd(1, 4)}}},
 			&c12Scenario{Name: "read;update||update;read", Clients: [][]*Stmt{{rd(1, 2), up("u1", 2, 3)}, {up("u2", 1, 2), rd(2, 3)}}})
 	}
@@ -102,6 +106,9 @@ func (sc *c12Scenario) describe() string {
 }
 
 func (sc *c12Scenario) build(bound int) *core.Scenario {
+	if sc.DDL {
+		return sc.buildDDL(bound)
+	}
 	free := c12Free(bound, len(sc.Clients))
 	if sc.Bound > 0 {
 		bound = sc.Bound
